@@ -2,3 +2,14 @@
 //! zero. Analysed by the same driver on every run; a rule that does not match its control fails
 //! the check (guards against a rule silently matching nothing).
 #![allow(dead_code, unused)]
+
+/// E-REC control: unbounded self-recursion, one frame per occurrence in the input
+pub fn control_recursion(bytes: &[u8]) -> Vec<u8> {
+    if let Some(index) = bytes.windows(2).position(|w| w == b"\r\n") {
+        let mut v = bytes[..index].to_vec();
+        v.extend(control_recursion(&bytes[index + 1..]));
+        v
+    } else {
+        bytes.to_vec()
+    }
+}
